@@ -249,6 +249,86 @@ func main() {
 		c.Count("counter_sequences", nseq)
 		c.Count("evaluations", nseq)
 	})
+	// part 3: large sets (the counter's "already counted" bookkeeping crosses machine-word boundaries): every
+	// pair of calls (i, j) by index and by ID on a fresh counter, and full passes in both directions followed
+	// by a second pass; a non-member ID never counts and never disturbs a member
+	bigNs := []int{31, 32, 33, 63, 64, 65, 100}
+	c.Parallel(len(bigNs), func(k int) {
+		n := bigNs[k]
+		b := pos.NewBuilder()
+		ws := make([]uint64, n)
+		var T uint64
+		for i := 0; i < n; i++ {
+			ws[i] = uint64(1 + (i*7)%5)
+			T += ws[i]
+			b.Set(idx.ValidatorID(100+i), pos.Weight(ws[i]))
+		}
+		vv := b.Build()
+		q := 2*T/3 + 1
+		wOf := func(i int) uint64 { return uint64(vv.GetWeightByIdx(idx.Validator(i))) }
+		for i := 0; i < n; i++ {
+			for j := 0; j < n; j++ {
+				for mode := 0; mode < 4; mode++ {
+					cnt := vv.NewCounter()
+					call := func(byIdx bool, x int) bool {
+						if byIdx {
+							return cnt.CountByIdx(idx.Validator(x))
+						}
+						return cnt.Count(vv.GetID(idx.Validator(x)))
+					}
+					g1 := call(mode&1 == 0, i)
+					g2 := call(mode&2 == 0, j)
+					want := wOf(i)
+					if j != i {
+						want += wOf(j)
+					}
+					c.Count("evaluations", 1)
+					if !g1 || g2 != (j != i) || uint64(cnt.Sum()) != want || cnt.HasQuorum() != (want >= q) {
+						c.Violation("counter-large-set", map[string]interface{}{"n": n, "i": i, "j": j, "mode": mode}, "n=%d: counting idx %d then %d (mode %d): results %v %v, Sum=%d want %d", n, i, j, mode, g1, g2, cnt.Sum(), want)
+						return
+					}
+				}
+			}
+		}
+		for _, rev := range []bool{false, true} {
+			// a stray Count of a non-member ID first (what it returns is unspecified): counting every member
+			// afterwards must still end at the total weight, i.e. the whole set reaches the quorum
+			stray := vv.NewCounter()
+			stray.Count(idx.ValidatorID(7))
+			for x := 0; x < n; x++ {
+				i := x
+				if rev {
+					i = n - 1 - x
+				}
+				stray.Count(vv.GetID(idx.Validator(i)))
+			}
+			if uint64(stray.Sum()) != T || !stray.HasQuorum() {
+				c.Violation("counter-stray-non-member", n, "n=%d: after a Count of a non-member ID, counting every member ends at Sum=%d (total %d), HasQuorum=%v", n, stray.Sum(), T, stray.HasQuorum())
+			}
+			cnt := vv.NewCounter()
+			var s uint64
+			for pass := 0; pass < 2; pass++ {
+				for x := 0; x < n; x++ {
+					i := x
+					if rev {
+						i = n - 1 - x
+					}
+					got := cnt.CountByIdx(idx.Validator(i))
+					if pass == 0 {
+						s += wOf(i)
+					}
+					c.Count("evaluations", 1)
+					if got != (pass == 0) || uint64(cnt.Sum()) != s || cnt.HasQuorum() != (s >= q) {
+						c.Violation("counter-large-set", map[string]interface{}{"n": n, "pass": pass, "i": i}, "n=%d pass %d idx %d: got=%v Sum=%d model=%d HasQuorum=%v (quorum %d)", n, pass, i, got, cnt.Sum(), s, cnt.HasQuorum(), q)
+						return
+					}
+				}
+			}
+			if s != T {
+				c.Violation("counter-large-set", n, "n=%d: whole set counted gives %d, total %d", n, s, T)
+			}
+		}
+	})
 	c.Set("sets_part2", len(sets))
 	c.Count("distinct_nontrivial", distinctTotals)
 	if sh, _ := c.Shard(); sh == 0 {
